@@ -571,7 +571,7 @@ fn main() {
   let path = std::env::args().nth(1).expect("usage: verif_replay <world.json>");
   let input: Value =
     serde_json::from_str(&std::fs::read_to_string(path).unwrap()).unwrap();
-  if input.get("packages").is_some() {
+  if input["world"].get("packages").is_some() {
     println!("{}", packages::run(&input));
     return;
   }
